@@ -130,7 +130,7 @@ def run_configs(prop, tier, configs, depth_of, workers=None, level="model_checki
         dd = depth_of(cfg)
         depth, max_states = dd[0], dd[1]
         # thorough runs are bounded in wall time per configuration (reported as a cap); quick runs only by depth
-        budget = dd[2] if len(dd) > 2 else (None if tier == "quick" else 150)
+        budget = dd[2] if len(dd) > 2 else (None if tier == "quick" else 90)
         factory = cfg.make if hasattr(cfg, "make") else (lambda cfg=cfg: davsys.DavSys(cfg))
         seed_h = seeds(cfg) if seeds else ()
         res = explore.explore(factory, max_depth=depth, workers=workers, max_states=max_states, seed_histories=seed_h, budget_s=budget)
